@@ -9,7 +9,7 @@ package streamfilter
 //	    also matches is configured (the engine applies the most specific matching nodes).
 //
 // Exhaustive over: every set of 1..3 flows out of 13 (URL pattern, method constraint) filters (one written with a trailing slash, two on a host written with an upper-case letter), EVERY load
-// order, 9 request URLs x 2 methods. The REAL FilterTree.AddFlow / GetFlow run. Labelled bounded: never counted as proved.
+// order, 11 request URLs (two of them on another host whose name starts with the same labels) x 2 methods. The REAL FilterTree.AddFlow / GetFlow run. Labelled bounded: never counted as proved.
 
 import (
 	"sort"
@@ -71,7 +71,7 @@ func TestBoundedC03LoadOrderAndOwnFilter(t *testing.T) {
 		{"a.com/x/*", ""}, {"a.com/x/y", "GET"}, {"a.com/{p}/y", ""}, {"a.com", ""}, {"a.com/x/y/*", "POST"}, {"a.com/x/", "GET"},
 		{"B.com/x", "GET"}, {"B.com/x", "POST"}, // a host written with an upper-case letter, declared twice
 	}
-	urls := []string{"B.com/x", "a.com", "a.com/x", "a.com/y", "a.com/x/y", "a.com/y/y", "a.com/x/z", "a.com/x/y/z", "a.com/y/z/w"}
+	urls := []string{"a.com.evil/x", "a.com.evil", "B.com/x", "a.com", "a.com/x", "a.com/y", "a.com/x/y", "a.com/y/y", "a.com/x/z", "a.com/x/y/z", "a.com/y/z/w"}
 	reqMethods := []string{"GET", "POST"}
 	var sets [][]int
 	for i := range filters {
